@@ -1147,8 +1147,12 @@ class MultipartWriter(Payload):
             obj.headers.update(headers)
             return self.append_payload(obj)
         else:
+            # Text is encoded with the charset of the Content-Type it is sent
+            # with, so the payload has to be told about the caller's one.
+            ctype = CIMultiDict(headers).get(CONTENT_TYPE)
+            kwargs = {} if ctype is None else {"content_type": ctype}
             try:
-                payload = get_payload(obj, headers=headers)
+                payload = get_payload(obj, headers=headers, **kwargs)
             except LookupError:
                 raise TypeError("Cannot create payload from %r" % obj)
             else:
